@@ -6,7 +6,10 @@
 //     loop body;
 //   - go statements become simhook.Go(site, func(){...}) with the function value
 //     and the arguments still evaluated at the go statement;
-//   - sync.Mutex / sync.RWMutex types become simhook.Mutex / simhook.RWMutex.
+//   - sync.Mutex / sync.RWMutex / sync.Pool types become simhook.Mutex /
+//     simhook.RWMutex / simhook.Pool;
+//   - select statements with several communication clauses poll their clauses
+//     in an order the simulator chooses (simhook.Select).
 //
 // It is purely syntactic and knows nothing about the code it rewrites.
 package main
@@ -122,7 +125,7 @@ func (in *inst) file(path string) error {
 			if !ok || id.Name != syncName || id.Obj != nil {
 				return true
 			}
-			if se.Sel.Name == "Mutex" || se.Sel.Name == "RWMutex" {
+			if se.Sel.Name == "Mutex" || se.Sel.Name == "RWMutex" || se.Sel.Name == "Pool" {
 				id.Name = "simhook"
 				in.nMutex++
 			}
